@@ -1262,7 +1262,7 @@ def o4(h):
 
 def _o4_j2(h, kin):
     h.bounds(BOUNDS_REST)
-    h.outside('power-law rate sensitivity (dt-dependent kinetic potential): thorough tier, O4.reference_state_j2_rate')
+    h.outside('power-law rate sensitivity (dt-dependent kinetic potential): see O4.reference_state_j2_rate')
     _rest(h, [k for k in REST_J2 if k.startswith('j2plastic[%s,' % kin)])
 
 
@@ -1295,7 +1295,7 @@ def o2_state(h):
     _run_symmetry(h, ['j2plastic[large deformations,linear]'], 'right', False, 'symbolic', cap=300)
 
 
-@obligation(P, 'O4.reference_state_j2_rate', tiers=('thorough',), cap=600)
+@obligation(P, 'O4.reference_state_j2_rate', cap=600)
 def o4_j2_rate(h):
     """reference state of J2Plastic with the power-law rate sensitivity (kinetic potential), all dt > 0"""
     h.bounds(BOUNDS_REST + '; rate sensitivity stress S > 0, exponent m > 0, reference rate > 0')
